@@ -594,6 +594,10 @@ def unit_suites(ctx, w):
         a = rng.choice(CIPHERS)
         n = KEYLEN[a] if i % 3 else rng.randrange(0, 40)
         key = bytes(rng.choice([0, 255, rng.randrange(256)]) for _ in range(n)) if i % 5 == 0 else bytes(rng.randrange(256) for _ in range(n))
+        if i < 8 and n == KEYLEN[a]:
+            # session keys whose octets sum to less than 256 / exactly 255, 256, 65535+: the checksum is ALWAYS two octets
+            key = [bytes(n), bytes(n - 1) + b'\xff', bytes(n - 1) + b'\x01', b'\x01' + bytes(n - 2) + b'\xff', b'\xff' * n, bytes(n - 2) + b'\xff\x01',
+                   b'\x80' + bytes(n - 1), bytes([1] * n)][i]
         stub = _StubRSA()
         p = PKESessionKeyV3(); p.pkalg = 1
         o = outcome(p.encrypt_sk, stub, S(a), key)
@@ -1114,6 +1118,8 @@ def encryptor_suite(ctx, w):
     for i in range(total):
         alg = w.ciphers[i % len(w.ciphers)]
         body = gen_body(ctx, ['text', 'binary', 'empty', 'unicode'][i % 4])
+        if i % 5 == 1:
+            body = bytes(rng.randrange(256) for _ in range(rng.choice([600, 1500, 3000, 9000, 20000])))     # long enough to be streamed (below)
         with warnings.catch_warnings():
             warnings.simplefilter('ignore')
             m = pgpy.PGPMessage.new(body, compression=rng.choice(list(Z)))
@@ -1171,7 +1177,7 @@ def encryptor_suite(ctx, w):
             ctx.fail('independent-encryptor', 'model encryptor failed: ' + mo[:80], case)
             continue
         raw = unhx(mo[3:])
-        if i % 4 == 2:
+        if i % 5 == 1:
             # the sender STREAMS the encrypted data packet (RFC 4880 4.2.2.4): partial body lengths, the last part closed by a one-,
             # two- or five-octet length according to what is left
             streamed = stream_last_packet(raw, rng)
